@@ -285,5 +285,6 @@ func TestVerifC03Ext(t *testing.T) {
 	defer w.close()
 	kit.Run(t, "C03", "period-zone", kit.N(160, 2400), func(c *kit.Case) { runPeriodZone(c, w, e.Seed) })
 	runExtFamilies(t, w)
+	runOutageFamilies(t, w)
 	kit.End()
 }
